@@ -279,4 +279,184 @@ theorem addOrRenew_err (h : Bytes → Bytes) (f : File) (avail : Nat) (li : Leas
       · subst x; exact (hne rfl).elim
       · exact Or.inr (Or.inr x)
 
+/-! ### reading leases back after a record write (C25 `renew_or_add`) -/
+
+theorem parseMut_serMut (l : Lease) (ho : l.owner < 2 ^ 32) (he : l.expire < 2 ^ 32)
+    (hr : l.renew.length = 32) (hc : l.cancel.length = 32) (hn : l.nodeid.length = 20) :
+    parseMut (serMut l) = l := by
+  unfold parseMut serMut
+  rw [fixN_of_length _ _ hr, fixN_of_length _ _ hc, fixN_of_length _ _ hn]
+  simp only [List.append_assoc]
+  have e0 : pread (packU32 l.owner ++ (packU32 l.expire ++ (l.renew ++ (l.cancel ++ l.nodeid)))) 0 4 = packU32 l.owner :=
+    pread_append_prefix _ _ _ (by simp)
+  have e1 : pread (packU32 l.owner ++ (packU32 l.expire ++ (l.renew ++ (l.cancel ++ l.nodeid)))) 4 4 = packU32 l.expire := by
+    rw [pread_append_of_le _ _ _ _ (by simp)]; simp only [length_packU32, Nat.sub_self]
+    exact pread_append_prefix _ _ _ (by simp)
+  have e2 : pread (packU32 l.owner ++ (packU32 l.expire ++ (l.renew ++ (l.cancel ++ l.nodeid)))) 8 32 = l.renew := by
+    rw [pread_append_of_le _ _ _ _ (by simp), pread_append_of_le _ _ _ _ (by simp)]
+    simp only [length_packU32]
+    exact pread_append_prefix _ _ _ (by omega)
+  have e3 : pread (packU32 l.owner ++ (packU32 l.expire ++ (l.renew ++ (l.cancel ++ l.nodeid)))) 40 32 = l.cancel := by
+    rw [pread_append_of_le _ _ _ _ (by simp), pread_append_of_le _ _ _ _ (by simp),
+      pread_append_of_le _ _ _ _ (by simp; omega)]
+    simp only [length_packU32, hr]
+    exact pread_append_prefix _ _ _ (by omega)
+  have e4 : pread (packU32 l.owner ++ (packU32 l.expire ++ (l.renew ++ (l.cancel ++ l.nodeid)))) 72 20 = l.nodeid := by
+    rw [pread_append_of_le _ _ _ _ (by simp), pread_append_of_le _ _ _ _ (by simp),
+      pread_append_of_le _ _ _ _ (by simp; omega), pread_append_of_le _ _ _ _ (by simp; omega)]
+    simp only [length_packU32, hr, hc]
+    have := pread_all l.nodeid
+    rw [hn] at this
+    exact this
+  rw [e0, e1, e2, e3, e4, unpackBE_packU32 _ ho, unpackBE_packU32 _ he]
+
+theorem parseMut_fields (d : Bytes) (hd : d.length = 92) :
+    (parseMut d).owner < 2 ^ 32 ∧ (parseMut d).expire < 2 ^ 32 ∧ (parseMut d).renew.length = 32 ∧
+    (parseMut d).cancel.length = 32 ∧ (parseMut d).nodeid.length = 20 := by
+  unfold parseMut
+  have a := unpackBE_lt (pread d 0 4)
+  have b := unpackBE_lt (pread d 4 4)
+  rw [length_pread_of_le _ _ _ (by omega)] at a b
+  refine ⟨by simpa using a, by simpa using b, ?_, ?_, ?_⟩ <;> exact length_pread_of_le _ _ _ (by omega)
+
+/-- byte offset of lease slot `i` -/
+def offOf (f : File) (i : Nat) : Nat := if i < 4 then 100 + i * 92 else extOff f + 4 + (i - 4) * 92
+
+theorem slotOff_eq (f : File) (i : Nat) (hi : i < 4 + numExtra f) : slotOff f i = some (offOf f i) := by
+  unfold slotOff offOf
+  by_cases h : i < 4
+  · simp [h]
+  · have : i - 4 < numExtra f := by omega
+    simp [h, this]
+
+theorem writeLeaseRecord_eq (f : File) (i : Nat) (rec : Bytes) (hi : i < 4 + numExtra f) :
+    writeLeaseRecord f i rec = pwrite f (offOf f i) rec := by
+  unfold writeLeaseRecord offOf
+  by_cases h : i < 4
+  · simp [h]
+  · have : i - 4 < numExtra f := by omega
+    simp [h, this]
+
+/-- the decoding step of `_read_lease_record` -/
+def decodeRec (d : Bytes) : Option Lease := if (parseMut d).owner = 0 then none else some (parseMut d)
+
+theorem readLeaseRecord_eq (f : File) (i : Nat) (hi : i < 4 + numExtra f) :
+    readLeaseRecord f i = some (decodeRec (pread f (offOf f i) 92)) := by
+  unfold readLeaseRecord decodeRec
+  rw [slotOff_eq f i hi]
+
+theorem readLeaseRecord_write (f : File) (hwf : WF f) (i : Nat) (hi : i < 4 + numExtra f) (rec : Bytes)
+    (hrec : rec.length = 92) (j : Nat) (hj : j < 4 + numExtra f) :
+    readLeaseRecord (writeLeaseRecord f i rec) j =
+      if j = i then some (decodeRec rec) else readLeaseRecord f j := by
+  obtain ⟨lw, hnum⟩ := writeLeaseRecord_spec f hwf i rec hrec (by omega) (Or.inl hi)
+  rw [if_pos hi] at hnum
+  have hext := lw.ext
+  have hdata := hwf.data_le
+  have hlen := hwf.len_ge
+  rw [readLeaseRecord_eq _ j (by rw [hnum]; exact hj), readLeaseRecord_eq f j hj]
+  have hoff : ∀ k, offOf (writeLeaseRecord f i rec) k = offOf f k := by
+    intro k; unfold offOf; rw [hext]
+  rw [hoff, writeLeaseRecord_eq f i rec hi]
+  by_cases hji : j = i
+  · subst hji
+    rw [if_pos rfl]
+    have := pread_pwrite_eq f (offOf f j) rec
+    rw [hrec] at this
+    rw [this]
+  · rw [if_neg hji]
+    congr 2
+    apply pread_pwrite_disj
+    rw [hrec]
+    unfold offOf
+    by_cases h1 : i < 4 <;> by_cases h2 : j < 4 <;> simp only [h1, h2, if_true, if_false] <;> omega
+
+theorem map_filterMap' {α β γ : Type} (f : α → Option β) (g : β → γ) (l : List α) :
+    (l.filterMap f).map g = l.filterMap (fun x => (f x).map g) := by
+  induction l with
+  | nil => rfl
+  | cons a t ih =>
+    simp only [List.filterMap_cons]
+    cases f a with
+    | none => simpa using ih
+    | some b => simp [ih]
+
+/-- the lease list after overwriting the record of a listed lease: that entry is replaced, nothing else moves -/
+theorem enumerateLeases_write (f : File) (hwf : WF f) (i : Nat) (l l' : Lease) (hmem : (i, l) ∈ enumerateLeases f)
+    (rec : Bytes) (hrec : rec.length = 92) (hdec : decodeRec rec = some l') :
+    enumerateLeases (writeLeaseRecord f i rec) =
+      (enumerateLeases f).map (fun p => if p.1 = i then (i, l') else p) := by
+  obtain ⟨hi, hread⟩ := mem_enumerateLeases.mp hmem
+  obtain ⟨_, hnum⟩ := writeLeaseRecord_spec f hwf i rec hrec (by omega) (Or.inl hi)
+  rw [if_pos hi] at hnum
+  unfold enumerateLeases numLeaseSlots
+  rw [hnum, map_filterMap']
+  apply filterMap_congr'
+  intro j hj
+  have hj' := List.mem_range.mp hj
+  rw [readLeaseRecord_write f hwf i hi rec hrec j hj']
+  by_cases hji : j = i
+  · subst hji
+    simp [hdec, hread]
+  · simp only [hji, if_false]
+    cases readLeaseRecord f j with
+    | none => rfl
+    | some o =>
+      cases o with
+      | none => rfl
+      | some x => simp [hji]
+
+/-- the stored lease behind a listed entry is the parse of a full 92-byte record with a non-zero owner -/
+theorem listed_lease (f : File) (hwf : WF f) (i : Nat) (l : Lease) (hmem : (i, l) ∈ enumerateLeases f) :
+    l.owner ≠ 0 ∧ l.owner < 2 ^ 32 ∧ l.expire < 2 ^ 32 ∧ l.renew.length = 32 ∧ l.cancel.length = 32 ∧
+    l.nodeid.length = 20 := by
+  obtain ⟨hi, hread⟩ := mem_enumerateLeases.mp hmem
+  rw [readLeaseRecord_eq f i hi] at hread
+  simp only [Option.some.injEq] at hread
+  unfold decodeRec at hread
+  have hlen : (pread f (offOf f i) 92).length = 92 := by
+    apply length_pread_of_le
+    have := hwf.data_le; have := hwf.len_ge
+    unfold offOf; split <;> omega
+  split at hread
+  · simp at hread
+  · rename_i ho
+    simp only [Option.some.injEq] at hread
+    subst hread
+    exact ⟨ho, parseMut_fields _ hlen⟩
+
+/-- `findRenew = none` means exactly: no listed lease matches the secret -/
+theorem findRenew_none_iff (h : Bytes → Bytes) (s : Schema) (secret : Bytes) (L : List (Nat × Lease)) :
+    Mutable.findRenew h s secret L = none ↔ ∀ p ∈ L, isRenewSecret h s p.2 secret = false := by
+  induction L with
+  | nil => simp [Mutable.findRenew]
+  | cons p rest ih =>
+    obtain ⟨i, l⟩ := p
+    simp only [Mutable.findRenew, List.mem_cons, forall_eq_or_imp]
+    by_cases hm : isRenewSecret h s l secret = true
+    · simp [hm]
+    · simp only [hm, Bool.false_eq_true, if_false, ih]
+      simp at hm; simp
+
+theorem findRenew_v2_congr (h h' : Bytes → Bytes) (rs rs' : Bytes) (hr : h rs = h' rs') (L : List (Nat × Lease)) :
+    Mutable.findRenew h .v2 rs L = Mutable.findRenew h' .v2 rs' L := by
+  induction L with
+  | nil => rfl
+  | cons p rest ih =>
+    obtain ⟨i, l⟩ := p
+    unfold Mutable.findRenew
+    rw [ih]
+    simp only [isRenewSecret, hr]
+    by_cases hm : (l.renew == h' rs') = true <;> simp [hm]
+
+theorem imm_findRenew_v2_congr (h h' : Bytes → Bytes) (rs rs' : Bytes) (hr : h rs = h' rs') (L : List Lease) (i : Nat) :
+    Imm.findRenew h .v2 rs L i = Imm.findRenew h' .v2 rs' L i := by
+  induction L generalizing i with
+  | nil => rfl
+  | cons l rest ih =>
+    unfold Imm.findRenew
+    rw [ih]
+    simp only [isRenewSecret, hr]
+    by_cases hm : (l.renew == h' rs') = true <;> simp [hm]
+
 end Tahoe.Storage.Mutable
